@@ -591,6 +591,14 @@ func (tdsChan *Channel) sendPackets(ctx context.Context, onlyFull bool) error {
 		// The message filled its last packet completely, so all packets
 		// were sent without the end-of-message status. Terminate the
 		// message with a header-only packet.
+		select {
+		case <-ctx.Done():
+			return fmt.Errorf("passed context is closed: %w", ctx.Err())
+		case <-tdsChan.tdsConn.ctx.Done():
+			return fmt.Errorf("connection context is closed: %w", tdsChan.tdsConn.ctx.Err())
+		default:
+		}
+
 		eom := NewPacket(PacketHeaderSize)
 		eom.Header.Length = PacketHeaderSize
 		eom.Data = nil
